@@ -1,0 +1,15 @@
+//go:build verif
+
+package file
+
+// VerifHook, when non-nil, is called at every yield point of the lock protocol (before each
+// file-system step of lock acquisition, commit and release) with the name of the point.  It exists
+// only in builds with the tag "verif"; a verification harness installs a scheduler here to drive
+// several handlers through chosen interleavings.  Nothing in csvq sets it.
+var VerifHook func(point string)
+
+func verifPoint(name string) {
+	if h := VerifHook; h != nil {
+		h(name)
+	}
+}
